@@ -96,3 +96,16 @@ def register(claim):
         'decided: finiteness of observations/rewards over 200-1000 step histories (numeric).',
         'library-signature conformance + effect analysis + unit-quaternion typestate (abstract interpretation)',
         'DESIGN.md §3 C16')
+
+  claim('C13', 'other',
+        'Static rule check on brax/io/mjcf.py deciding, for every MJCF document, the structure that '
+        'preserves geometry when jointless bodies are fused: the offset of children is skipped only '
+        'when both pos and quat of the fused body are the identity (normalised guard); _offset '
+        'writes pos and quat (or both fromto end points) from _transform_do with the parent pose; '
+        '_transform_do equals Transform composition (AVN polynomial identity); only jointless bodies '
+        'are fused, all their children re-parented, nested levels recursed; every load path fuses '
+        'before serialising/compiling.',
+        'Trusted: python ast, predicate normaliser, AVN normal form, ElementTree semantics.  Not '
+        'decided: masses/inertias recomputed by MuJoCo; orientation attributes other than quat.',
+        'guard-completeness predicate normalisation + def-use provenance + AVN law + path rules',
+        'DESIGN.md §3 C13')
